@@ -1,6 +1,7 @@
 package schema
 
 import (
+	"encoding/json"
 	"fmt"
 	"math"
 	"regexp"
@@ -375,6 +376,7 @@ func collectNamedConst(k *Const, seen map[string]bool, out *[]*Type) {
 
 // RenderProg renders the whole program as an LLVM module.
 func RenderProg(t *Tables, p *Prog) string {
+	p = numberUnnamedGlobals(p)
 	var sb strings.Builder
 	var nm *Namer
 	if len(p.Fn.Blocks) > 0 || p.Fn.Name != "" {
@@ -444,12 +446,16 @@ func RenderProg(t *Tables, p *Prog) string {
 					ps = append(ps, "...")
 				}
 				fmt.Fprintf(&sb, "declare %s @%s(%s)\n", sig.Ret.String(), d.Name, strings.Join(ps, ", "))
+			case op == "NewFunc" && d.Op == "DefFunc":
+				sb.WriteString("\x00FN\x00") // the definition is created here (functions print in creation order)
 			}
 		}
 	}
 	if nm == nil {
 		return sb.String()
 	}
+	head := sb.String()
+	sb.Reset()
 	f := &p.Fn
 	var ps []string
 	for i := range f.Params {
@@ -507,5 +513,90 @@ func RenderProg(t *Tables, p *Prog) string {
 		line(&b.Term, nm.Terms[bi])
 	}
 	sb.WriteString("}\n")
-	return sb.String()
+	if strings.Contains(head, "\x00FN\x00") {
+		return strings.Replace(head, "\x00FN\x00", sb.String(), 1)
+	}
+	return head + sb.String()
+}
+
+// numberUnnamedGlobals handles programs in "ordered mode" (a DefFunc entry marks where the function
+// under construction is created): unnamed module-level objects get LLVM's numbers, which follow the
+// order of printing (variables, aliases, ifuncs, functions in creation order), and references by
+// creation index (gref with Idx) are turned into those numbers. Other programs are returned as is.
+func numberUnnamedGlobals(p *Prog) *Prog {
+	ordered := false
+	for i := range p.Decls {
+		if p.Decls[i].Op == "DefFunc" {
+			ordered = true
+		}
+	}
+	if !ordered {
+		return p
+	}
+	b, err := json.Marshal(p)
+	if err != nil {
+		return p
+	}
+	var q Prog
+	if json.Unmarshal(b, &q) != nil {
+		return p
+	}
+	names := map[int]string{}
+	next := 0
+	for _, grp := range [][]string{{"NewGlobal", "NewGlobalDef"}, {"NewAlias"}, {"NewIFunc"}, {"NewFunc", "DefFunc"}} {
+		for i := range q.Decls {
+			d := &q.Decls[i]
+			if d.Op != grp[0] && (len(grp) < 2 || d.Op != grp[1]) {
+				continue
+			}
+			name := d.Name
+			if d.Op == "DefFunc" {
+				name = q.Fn.Name
+			}
+			if name == "" {
+				name = strconv.Itoa(next)
+				next++
+			}
+			names[i+1] = name
+			if d.Op == "DefFunc" {
+				q.Fn.Name = name
+			} else {
+				d.Name = name
+			}
+		}
+	}
+	var fix func(k *Const)
+	fix = func(k *Const) {
+		if k == nil {
+			return
+		}
+		if k.C == "gref" && k.Name == "" && k.Idx > 0 {
+			k.Name = names[k.Idx]
+		}
+		for i := range k.Es {
+			fix(&k.Es[i])
+		}
+		for i := range k.Ops {
+			fix(&k.Ops[i])
+		}
+	}
+	for i := range q.Decls {
+		fix(q.Decls[i].Init)
+	}
+	for bi := range q.Fn.Blocks {
+		blk := &q.Fn.Blocks[bi]
+		for ii := range blk.Insts {
+			for oi := range blk.Insts[ii].Ops {
+				if r := blk.Insts[ii].Ops[oi].V; r != nil {
+					fix(r.C)
+				}
+			}
+		}
+		for oi := range blk.Term.Ops {
+			if r := blk.Term.Ops[oi].V; r != nil {
+				fix(r.C)
+			}
+		}
+	}
+	return &q
 }
